@@ -186,8 +186,7 @@ Proof. intro H. apply Rltb_true. exact H. Qed.
 (* each fwd_step over the carrier at x equals the oracle's once the value of the pivot search is known *)
 Ltac fwd_steps lt FM0tac FM1tac :=
   match goal with
-  | |- M4.fwd (M5.nx (NumXE ?x)) 3 ?msk ?s0 = _ =>
-    change (M5.nx (NumXE x)) with (NumE x);
+  | |- M4.fwd (NumE ?x) 3 ?msk ?s0 = _ =>
     pose (F0 := M4.mkF (seq 0 3) s0 (@nil expr));
     pose (F1 := M4.fwd_step (NumEo lt) 3 msk F0 0);
     pose (F2 := M4.fwd_step (NumEo lt) 3 msk F1 1);
@@ -204,9 +203,8 @@ Ltac fwd_steps lt FM0tac FM1tac :=
         | unfold F2, M4.fwd_step; rewrite FM; cbv -[Rltb evalR IZR]; reflexivity ]
       | assert (S3 : M4.fwd_step (NumE x) 3 msk F2 2 = F3);
         [ unfold F3, M4.fwd_step; cbv -[Rltb evalR IZR]; reflexivity
-        | change (M4.fwd (NumE x) 3 msk s0)
-            with (M4.fwd_step (NumE x) 3 msk (M4.fwd_step (NumE x) 3 msk (M4.fwd_step (NumE x) 3 msk F0 0) 1) 2);
-          rewrite S1, S2, S3; cbv -[IZR]; reflexivity ] ] ]
+        | transitivity (M4.fwd_step (NumE x) 3 msk (M4.fwd_step (NumE x) 3 msk (M4.fwd_step (NumE x) 3 msk F0 0) 1) 2);
+          [ reflexivity | rewrite S1, S2, S3; cbv -[IZR]; reflexivity ] ] ] ]
   end.
 
 Definition s0_of (x : nat -> R) : M4.st :=
@@ -232,6 +230,7 @@ Proof.
   assert (E12 : Rltb (evalR x (EAbs (q_b1 0 1 3 4))) (evalR x (EAbs (q_g1 0 1 6 7))) = false)
     by (apply Rltb_false; apply Rlt_le; exact H3).
   cbv -[Rltb evalR IZR] in E01, E02, E12.
+  change (M5.nx (NumXE x)) with (NumE x).
   fwd_steps lt_never
     ltac:(rewrite E01; cbv -[Rltb evalR IZR]; rewrite E02; reflexivity)
     ltac:(rewrite E12; reflexivity).
@@ -296,6 +295,7 @@ Proof.
   assert (E12 : Rltb (evalR x (EAbs (q_b1 3 4 0 1))) (evalR x (EAbs (q_g1 3 4 6 7))) = false)
     by (apply Rltb_false; apply Rlt_le; exact H3).
   cbv -[Rltb evalR IZR] in E01, E02, E12.
+  change (M5.nx (NumXE x)) with (NumE x).
   fwd_steps lt_03
     ltac:(rewrite E01; cbv -[Rltb evalR IZR]; rewrite E02; reflexivity)
     ltac:(rewrite E12; reflexivity).
